@@ -68,12 +68,73 @@ func init() {
 
 var allVersOps = []string{">=", "<=", ">", "<", "=", "!="}
 
+// c16Big: a well-formed range of hundreds to thousands of constraints whose text is just below a power of two between
+// 4 kB and 128 kB; the transformed text (rotated, one constraint repeated, a few spaces) is a little longer. A size
+// limit applied to the raw text instead of the normalised constraints shows up as accepted-versus-error.
+func c16Big(rt *rapid.T, r *runner, scheme string) {
+	pfx := ""
+	if scheme == "golang" {
+		pfx = "v"
+	}
+	target := (1 << rapid.IntRange(12, 17).Draw(rt, "bigk")) - rapid.IntRange(0, 40).Draw(rt, "bigd")
+	var cons []string
+	size := len("vers:" + scheme + "/")
+	for i := 0; ; i++ {
+		op := ">="
+		if i%2 == 1 {
+			op = "<"
+		}
+		c := fmt.Sprintf("%s%s1.%d.0", op, pfx, i)
+		if size+len(c)+1 > target {
+			break
+		}
+		cons = append(cons, c)
+		size += len(c) + 1
+	}
+	if len(cons) < 4 {
+		return
+	}
+	// pad the last constraint's number with nothing: the text is at most one constraint short of the target; the
+	// remaining distance is closed with trailing empty constraints (ignored by VERS)
+	k := rapid.IntRange(0, len(cons)-1).Draw(rt, "bigrot")
+	rot := append(append([]string{}, cons[k:]...), cons[:k]...)
+	orig := "vers:" + scheme + "/" + strings.Join(rot, "|")
+	for len(orig) < target {
+		orig += "|"
+	}
+	var tc []string
+	for i := len(rot) - 1; i >= 0; i-- {
+		tc = append(tc, rot[i])
+	}
+	for i := 0; i < 5; i++ {
+		at := rapid.IntRange(0, len(tc)-1).Draw(rt, fmt.Sprintf("bigdup%d", i))
+		tc = append(tc, tc[at])
+	}
+	body := strings.Join(tc, "|")
+	for i := 0; i < 3; i++ {
+		p := rapid.IntRange(0, len(body)).Draw(rt, fmt.Sprintf("bigsp%d", i))
+		body = body[:p] + " " + body[p:]
+	}
+	trans := "vers:" + scheme + "/" + body
+	probe := fmt.Sprintf("%s1.%d.0", pfx, rapid.IntRange(0, len(cons)+1).Draw(rt, "bigprobe"))
+	kc := known.Case{Check: "invariant", Eco: scheme, Inputs: []string{orig, trans, probe}}
+	if r.check(rt, kc) {
+		r.ev.NonTrivial(scheme+"/big-range", func() any {
+			return map[string]any{"constraints": len(cons), "original_bytes": len(orig), "transformed_bytes": len(trans), "probe": probe}
+		}, scheme, "big", fmt.Sprint(len(orig)), fmt.Sprint(k), probe)
+	}
+}
+
 func TestC16(t *testing.T) {
 	r := newRunner(t, "C16")
 	for _, scheme := range schemesFor(t) {
 		scheme := scheme
 		e := eco.ByName(eco.Schemes[scheme])
 		rapid.Check(t, func(rt *rapid.T) {
+			if rapid.IntRange(0, 299).Draw(rt, "big") == 177 { // (a middle value: rapid favours the ends of a range)
+				c16Big(rt, r, scheme)
+				return
+			}
 			var cons []string
 			var set []string
 			if gen.Chance(rt, "star", 1, 25) {
